@@ -39,6 +39,7 @@ type LoopSpec struct {
 	Used       bool
 	Complete   *BodyCall // "complete": the loop is left only when its range / condition is exhausted
 	NoBreak    *BodyCall // "no_break": the loop is not left by break (returns in the body are allowed)
+	Stable     []*Clause // "stable e": an iteration leaves the value of e as it found it
 }
 
 type Effect struct {
@@ -300,6 +301,14 @@ func (cs *Contracts) parseFile(file, src string) {
 				curLoop.Decreases = append(curLoop.Decreases, c)
 			} else {
 				cur.Decreases = append(cur.Decreases, c)
+			}
+		case "stable":
+			if curLoop == nil {
+				cs.errf(file, ln, "stable outside loop block")
+				continue
+			}
+			if c := mkClause("stable"); c != nil {
+				curLoop.Stable = append(curLoop.Stable, c)
 			}
 		case "no_break":
 			if curLoop == nil {
